@@ -35,6 +35,13 @@ PROFILE = gf.make_profile(
     rich_intrinsics=True, helpers=(0, 0), nstmts=(2, 6), functions=False)
 
 
+def ensure(name):
+    """Profile in which intrinsic `name` certainly occurs."""
+    return gf.make_profile(kinds=dict(PROFILE["kinds"]),
+                           rich_intrinsics=True, helpers=(0, 0),
+                           nstmts=(1, 4), functions=False, ensure=name)
+
+
 def _T():
     from psyclone.psyir import transformations as T
     return T
@@ -105,25 +112,35 @@ SPEC = {
     "allarrayaccess2loop": dict(make=lambda: _T().AllArrayAccess2LoopTrans(),
                                 candidates=assignments),
     "abs2code": dict(make=lambda: _T().Abs2CodeTrans(),
-                     candidates=intrinsics("ABS", real_only=True)),
+                     candidates=intrinsics("ABS", real_only=True),
+                     profile=ensure("abs")),
     "sign2code": dict(make=lambda: _T().Sign2CodeTrans(),
-                      candidates=intrinsics("SIGN", real_only=True)),
+                      candidates=intrinsics("SIGN", real_only=True),
+                     profile=ensure("sign")),
     "min2code": dict(make=lambda: _T().Min2CodeTrans(),
-                     candidates=intrinsics("MIN", real_only=True)),
+                     candidates=intrinsics("MIN", real_only=True),
+                     profile=ensure("min")),
     "max2code": dict(make=lambda: _T().Max2CodeTrans(),
-                     candidates=intrinsics("MAX", real_only=True)),
+                     candidates=intrinsics("MAX", real_only=True),
+                     profile=ensure("max")),
     "dotproduct2code": dict(make=lambda: _T().DotProduct2CodeTrans(),
-                            candidates=intrinsics("DOT_PRODUCT")),
+                            candidates=intrinsics("DOT_PRODUCT"),
+                     profile=ensure("dot")),
     "matmul2code": dict(make=lambda: _T().Matmul2CodeTrans(),
-                        candidates=intrinsics("MATMUL")),
+                        candidates=intrinsics("MATMUL"),
+                     profile=ensure("matmul")),
     "sum2loop": dict(make=lambda: _T().Sum2LoopTrans(),
-                     candidates=intrinsics("SUM")),
+                     candidates=intrinsics("SUM"),
+                     profile=ensure("sum")),
     "product2loop": dict(make=lambda: _T().Product2LoopTrans(),
-                         candidates=intrinsics("PRODUCT")),
+                         candidates=intrinsics("PRODUCT"),
+                     profile=ensure("product")),
     "minval2loop": dict(make=lambda: _T().Minval2LoopTrans(),
-                        candidates=intrinsics("MINVAL")),
+                        candidates=intrinsics("MINVAL"),
+                     profile=ensure("minval")),
     "maxval2loop": dict(make=lambda: _T().Maxval2LoopTrans(),
-                        candidates=intrinsics("MAXVAL")),
+                        candidates=intrinsics("MAXVAL"),
+                     profile=ensure("maxval")),
 }
 
 
